@@ -272,6 +272,8 @@ def build_sim(case: dict, restart_path: str):
             atoms.set_constraint(FixCom())
         sim = ForceBias(atoms, delta=0.08, temperature=T, **common_kw)
         sim.masses_scaling_power = 0.3
+        if tab == "fb-fixcom":
+            sim.gamma_max_value = 0.4      # a documented attribute, tuned on the instance: it clips gamma from the first step on
     elif drv == "AdaptiveForceBias":
         atoms.set_constraint(FixCom())
         sim = AdaptiveForceBias(atoms, min_delta=0.03, max_delta=0.1, temperature=T, reference_variance=0.2,
